@@ -200,9 +200,11 @@ Definition load (ans : provider) (models : list (list cref)) : outcome :=
 Definition load_trees (ans : provider) (trees : list node) : outcome := load ans (map refs_pre trees).
 
 (* the table provider of the correspondence harness: reference i answers Postponed on its first
-   delay(i) calls, then its target; unknown references are not found *)
-Definition table_ans (tbl : list (nat * (nat * target))) : provider := fun x h =>
+   delay(i) calls, then its target (or "not found" when the table gives none) *)
+Definition table_ans (tbl : list (nat * (nat * option target))) : provider := fun x h =>
   match find (fun kv => Nat.eqb (fst kv) (cid x)) tbl with
   | None => NotFound
-  | Some (_, (d, t)) => if Nat.ltb (count_occ Nat.eq_dec h (cid x)) d then Postponed else Resolved t
+  | Some (_, (d, ot)) =>
+      if Nat.ltb (count_occ Nat.eq_dec h (cid x)) d then Postponed
+      else match ot with Some t => Resolved t | None => NotFound end
   end.
